@@ -334,6 +334,10 @@ func authzExpect(authz string) (status int, msg string) {
 		return 409, "authz-denied-409"
 	case "deny401":
 		return 401, "authz-denied-401"
+	case "deny400":
+		return 400, "authz-denied-400" // the ends of the range a status can take (r10)
+	case "deny599":
+		return 599, "authz-denied-599"
 	case "denywrap":
 		// an error that wraps one carrying 409: the answer is 403 (the wrapper carries no status itself) or the wrapped
 		// status; what it says is not fixed
